@@ -1,6 +1,10 @@
 package vanguard
 
-import "connectrpc.com/connect"
+import (
+	"errors"
+
+	"connectrpc.com/connect"
+)
 
 // Shared helpers for harnesses (compiled both for the engine and natively).
 
@@ -31,3 +35,14 @@ func bytesEq(a, b []byte) bool {
 }
 
 func connectCodeU32(c connect.Code) uint32 { return uint32(c) }
+
+// connect_code returns the connect code carried by err (0 if none).
+func connect_code(err error) uint32 {
+	var ce *connect.Error
+	if errors.As(err, &ce) {
+		return uint32(ce.Code())
+	}
+	return 0
+}
+
+func verifConcretize64(x int64) int64 { return int64(verifConcretize(int(x))) }
